@@ -17,8 +17,10 @@ import time
 VERIF = os.path.dirname(os.path.abspath(__file__))
 REPO = os.environ.get("VERIF_REPO", "/repo")
 BUILD = os.path.join(VERIF, "build")
-EVID = os.path.join(VERIF, "evidence")
-REPLAYS = os.path.join(VERIF, "replays")
+# runs against a scratch copy (VERIF_REPO set) must never clobber the committed evidence of /repo
+_SCRATCH = os.path.realpath(REPO) != "/repo"
+EVID = os.path.join(VERIF, "evidence_scratch" if _SCRATCH else "evidence")
+REPLAYS = os.path.join(VERIF, "replays_scratch" if _SCRATCH else "replays")
 NCPU = int(os.environ.get("VERIF_JOBS", os.cpu_count() or 4))
 SEED = int(os.environ.get("VERIF_SEED", "0") or 0)
 
